@@ -86,6 +86,67 @@ def context_suite(vals, gates):
             yield ctx_program(e, e, a, b, CONTEXTS if not (op in ("div", "mod") and b == 0) else ["init"])
 
 
+def switch_programs(seed, n):
+    """if / else-if chains over one plain variable (clauses overlap, bodies may change the tested variable or leave the
+    enclosing loop); the rendered text is rewritten into a `switch` statement (refrun.ifchain_to_switch)"""
+    from common import Rng
+    r = Rng(seed, 71)
+
+    def cond(var):
+        k = r.below(3)
+        if k == 0:
+            return "(bin eq (var %s) (lit %d))" % (var, r.below(9))
+        if k == 1:
+            lo = r.below(8)
+            return "(bin land (bin ge (var %s) (lit %d)) (bin le (var %s) (lit %d)))" % (var, lo, var, lo + r.range(0, 5))
+        vs = [r.below(12) for _ in range(r.range(2, 3))]
+        e = "(bin eq (var %s) (lit %d))" % (var, vs[0])
+        for x in vs[1:]:
+            e = "(bin lor %s (bin eq (var %s) (lit %d)))" % (e, var, x)
+        return e
+
+    def body(var, tag, in_loop):
+        st = ["(assign (var r) (lit %d))" % tag]
+        k = r.below(10)
+        if k < 4:
+            st.append("(assign (var %s) (lit %d))" % (var, r.below(12)))          # the tested variable changes
+        elif k < 5:
+            st.append("(compound add (var %s) (lit 1))" % var)
+        elif k < 6 and in_loop:
+            st.append("(print (s \"k\") (e (var r)))")
+            st.append("(%s)" % r.choice(["break", "continue"]))
+        elif k < 7:
+            st.append("(print (s \"c\") (e (var %s)))" % var)
+        return " ".join(st)
+
+    def chain(var, in_loop):
+        n_cl = r.range(2, 4)
+        conds = [cond(var) for _ in range(n_cl)]
+        bodies = [body(var, 10 + i, in_loop) for i in range(n_cl)]
+        tail = "(%s)" % body(var, 99, in_loop) if r.below(3) else None
+        txt = None
+        for cnd, b in reversed(list(zip(conds, bodies))):
+            if txt is None:
+                txt = "(if %s (%s) %s)" % (cnd, b, tail) if tail else "(if %s (%s))" % (cnd, b)
+            else:
+                txt = "(if %s (%s) (%s))" % (cnd, b, txt)
+        return txt
+
+    for k in range(n):
+        shape = k % 3
+        if shape == 0:      # classify every value
+            main = ("(for (decl - int v (lit 0)) (bin lt (var v) (lit 13)) (compound add (var v) (lit 1)) "
+                    "((decl - int x (var v)) (decl - int r (lit 0)) %s (print (e (var v)) (e (var r)) (e (var x)))))" % chain("x", True))
+        elif shape == 1:    # state machine: the clauses move the tested variable
+            main = ("(decl - int st (lit %d)) (decl - int r (lit 0)) (decl - int t (lit 0)) "
+                    "(while (bin land (bin ne (var st) (lit 11)) (bin lt (var t) (lit 12))) "
+                    "((compound add (var t) (lit 1)) %s (print (e (var t)) (e (var st)) (e (var r)))))" % (r.below(6), chain("st", True)))
+        else:               # in a function, twice in a row
+            main = ("(decl - int x (lit %d)) (decl - int r (lit 0)) %s (print (e (var r)) (e (var x))) %s (print (e (var r)) (e (var x)))"
+                    % (r.below(12), chain("x", False), chain("x", False)))
+        yield "(prog (structs) (globals) (funcs (func main int (params) (%s (print (s \"END\")) (ret (lit 0))))))" % main
+
+
 def main(a):
     c = RefCheck(PID, a, ["CbProofs", "CbProps.C01"], THEOREMS)
     if not c.build():
@@ -96,6 +157,9 @@ def main(a):
     quick = a.tier == "quick"
     c.suite("contexts", context_suite(VALS_Q if quick else VALS_T, c.gates),
             nontrivial=lambda r: hash(r.sexp) if r.status != "undef" else None)
+    import refrun
+    c.suite("switch", list(switch_programs(a.seed, 150 if quick else 6000)), nontrivial=lambda r: hash(r.stdout),
+            max_report=4, source_transform=refrun.ifchain_to_switch)
     n = 1500 if quick else 150000
     stats = {}
     batch = []
@@ -110,7 +174,8 @@ def main(a):
     c.suite("random-core", batch, nontrivial=lambda r: hash(r.stdout) if r.stdout.count("\n") > 2 else None)
     return c.finish(
         rule="contexts: every binary/unary operator x boundary operand pairs observed in 8 evaluation contexts "
-             "(exhaustive on the value list); random-core: type-directed programs (generator tools/gen_core.py) from "
+             "(exhaustive on the value list); switch: if / else-if chains over one variable with overlapping clauses and "
+             "bodies that change it, rewritten in the rendered text into switch statements; random-core: type-directed programs (generator tools/gen_core.py) from "
              "VERIF_SEED; non-trivial = distinct program whose model run is inside the fragment and prints > 2 lines",
         extra={"generator_feature_counts": stats, "exhaustive": False},
         assumptions=["int64 overflow, shifts outside 0..63 and bool stores other than 0/1 are outside the fragment "
